@@ -3,7 +3,8 @@ against its contract."""
 import z3, re
 from values import *
 import ty as TY
-from symex import Engine, Frame, Obligation, QForall, I, R, B
+from symex import Engine, Frame, Obligation, I, R, B
+from values import QForall
 
 
 class V3:
@@ -69,7 +70,7 @@ class View:
 
 
 def key_sort(self, key):
-    if key in ('vec.len', 'vec.epoch', 'set.size'): return I
+    if key in ('vec.len', 'vec.epoch', 'set.size', 'flist.len'): return I
     if key in self.base_arrays: return self.base_arrays[key].sort().range()
     parts = key.split('.')
     # class names may contain dots? no. find the longest class prefix
@@ -315,8 +316,8 @@ class Registry:
     def add(self, c): self.contracts.append(c); return c
     def add_loop(self, lc): self.loops[(lc.qname, lc.ordinal)] = lc; return lc
     def loop_contract(self, qname, ordinal): return self.loops.get((qname, ordinal))
-    def lemma(self, name, prop, hyps, goal, note=''):
-        self.lemmas.append({'name': name, 'prop': prop, 'hyps': hyps, 'goal': goal, 'note': note})
+    def lemma(self, name, prop, hyps, goal, note='', inputs=()):
+        self.lemmas.append({'name': name, 'prop': prop, 'hyps': hyps, 'goal': goal, 'note': note, 'inputs': list(inputs)})
 
 
 def param_value(eng, st, p, idx):
@@ -500,7 +501,8 @@ def check_function(eng, contract, result):
     saved_use = eng.use_contracts; eng.use_contracts = {c.qname: c for c in contract.use}
     saved_depth = eng.max_depth
     if contract.max_depth: eng.max_depth = contract.max_depth
-    if contract.unroll: saved_unroll = eng.unroll_limit; eng.unroll_limit = contract.unroll
+    if contract.unroll: saved_unroll = eng.unroll_limit; eng.unroll_limit = contract.unroll + 1
+    eng.unroll_symbolic = contract.unroll or 0
     saved_nl = eng.name_locals; eng.name_locals = contract.name_locals
     nob0 = len(eng.obligations)
     try:
@@ -562,6 +564,7 @@ def check_function(eng, contract, result):
     finally:
         eng.safety = saved_safety; eng.use_contracts = saved_use; eng.max_depth = saved_depth; eng.name_locals = saved_nl
         if contract.unroll: eng.unroll_limit = saved_unroll
+        eng.unroll_symbolic = 0
     for ob in eng.obligations[nob0:]:
         ob.info.setdefault('fn', qn)
         ob.info['contract'] = contract.name
